@@ -1,6 +1,6 @@
 """Per-property check configuration for ./check (counts are case counts, never time limits)."""
 
-HOOK_COMMITS = ["7d6b6c7", "c967367", "db8645a"]
+HOOK_COMMITS = ["7d6b6c7", "c967367", "db8645a", "0f023d6"]
 
 NOT_APPLICABLE = {}
 
